@@ -1,6 +1,7 @@
 import TsVerif.Common.IO
 import TsVerif.C03.Judge
 import TsVerif.C03.Search
+import TsVerif.C03.RawTable
 /-!
 Driver for C03.  Reads grammar blocks (grammar.json, table dump, terminals) and cases (token string,
 real has_error, real internal tree, real visible tree); prints one line per grammar
@@ -172,6 +173,11 @@ def onReady (s : GState) : GState × String :=
       if r.2 then some r.1 else none
     else none
   let safe := tableSafe tbl
+  -- the raw rows against `ts_language_lookup`, every (state, symbol)
+  let rd := s.tableLines.foldl RawDump.addLine {}
+  let rawtie := match rawTie rd tbl.symbolCount with
+    | none => if rd.rows.isEmpty then "na" else "ok"
+    | some (q, y, a, b) => s!"FAIL:state{q}:symbol{y}({(tbl.symName y).replace " " "_"}):raw={a}:lookup={b}"
   -- non-terminals that carry a default alias' name are validated under the rule's name (`renameNT`:
   -- names of non-terminals are immaterial, `parser_sound_renamed` / `parser_complete_renamed`)
   let ren := findRen g tbl
@@ -232,7 +238,7 @@ def onReady (s : GState) : GState × String :=
     let i := tbl.syms.getD t.sym default
     i.name == t.tok.name && t.sym < tbl.tokenCount
   ({ s with tbl := tbl0, closed := closed, g := g0, gt := g, oracle := oracle, opOK := opOK, dynO := dynO, exempt := exempt, badStates := badStates },
-   s!"G {s.gid} kind={s.kind} closed={closed} rootsafe={rootSafe tbl} tablesafe={safe} cover={cover} complete={complete} prec={hasPrecs} multi={((List.range tbl.stateCount).map fun q => ((tbl.acts.getD q []).filter fun e => e.2.length > 1).length).foldl (· + ·) 0} exempt={exempt} items={nitems} rel={rel} relscope={relScope g tbl} prods={nprods} badprod={badProd.replace " " "_"} states={tbl.stateCount} symbols={tbl.symbolCount} rules={g.rules.length} " ++
+   s!"G {s.gid} kind={s.kind} closed={closed} rootsafe={rootSafe tbl} tablesafe={safe} rawtie={rawtie} rawrows={rd.rows.length} cover={cover} complete={complete} prec={hasPrecs} multi={((List.range tbl.stateCount).map fun q => ((tbl.acts.getD q []).filter fun e => e.2.length > 1).length).foldl (· + ·) 0} exempt={exempt} items={nitems} rel={rel} relscope={relScope g tbl} prods={nprods} badprod={badProd.replace " " "_"} states={tbl.stateCount} symbols={tbl.symbolCount} rules={g.rules.length} " ++
    s!"repconflict={suspiciousRepetitionCells tbl} simple={simple} oracle={oracle.isSome} dyn={dynO.isSome} L={s.exh} lang={langSize} fix={fix} opgrammar={opOK} resolvable={match s.optable with | some t => toString t.resolvable | none => "na"} terms={termsOK} nterm={s.terms.size}")
 
 def drvName : Outcome → String
